@@ -3,6 +3,7 @@ package protocol
 import (
 	"bytes"
 	"encoding/binary"
+	"errors"
 )
 
 type LLDP struct {
@@ -93,11 +94,15 @@ func (t *ChassisTLV) Write(b []byte) (n int, err error) {
 		return
 	}
 	n += 1
-	t.Data = make([]uint8, t.Length)
+	// The TLV length covers the subtype byte and the id.
+	if t.Length < 1 {
+		return n, errors.New("LLDP TLV too short for its subtype")
+	}
+	t.Data = make([]uint8, t.Length-1)
 	if err = binary.Read(buf, binary.BigEndian, &t.Data); err != nil {
 		return
 	}
-	n += int(t.Length)
+	n += int(t.Length) - 1
 	return
 }
 
@@ -144,11 +149,15 @@ func (t *PortTLV) Write(b []byte) (n int, err error) {
 		return
 	}
 	n += 1
-	t.Data = make([]uint8, t.Length)
+	// The TLV length covers the subtype byte and the id.
+	if t.Length < 1 {
+		return n, errors.New("LLDP TLV too short for its subtype")
+	}
+	t.Data = make([]uint8, t.Length-1)
 	if err = binary.Read(buf, binary.BigEndian, &t.Data); err != nil {
 		return
 	}
-	n += int(t.Length)
+	n += int(t.Length) - 1
 	return
 }
 
